@@ -163,4 +163,59 @@ def rule_release(prog):
 
 
 def run_all(prog):
-    return [rule_scratch(prog), rule_mods(prog), rule_both(prog), rule_release(prog)]
+    return [rule_scratch(prog), rule_mods(prog), rule_both(prog), rule_release(prog), rule_longest(prog)]
+
+
+def rule_longest(prog):
+    """R-OVR-LONGEST: the longest-match counter only advances for an override whose modifiers match."""
+    res = RuleResult("R-OVR-LONGEST", "only a matching override can raise the longest-match size", floor=1)
+    f = prog.fn(KO + "Overrides::update_keys")
+    res.fn(f)
+    n = 0
+    for c in prog.closures_of(f):
+        gm = blocks_calling(c, c.reachable(), [KO + "Override::get_mod_mask"])
+        if not gm:
+            continue
+        # the mask test: Eq whose operands derive from get_mod_mask()
+        tests = []
+        for bi, si, st in c.all_rvalues():
+            rv = st["rv"]
+            if rv["k"] == "bin" and rv["op"] in ("Eq", "Ne"):
+                _, cal_a, _ = backward_slice(c, rv["a"])
+                _, cal_b, _ = backward_slice(c, rv["b"])
+                if (KO + "Override::get_mod_mask") in (cal_a | cal_b):
+                    tests.append((bi, st["p"]["l"], rv["op"]))
+        # stores through captured &mut usize upvars (the counter)
+        stores = []
+        import re as _re
+        from kq.gf2 import root_desc as _rd
+        for bi, si, st in c.all_rvalues():
+            p_ = st["p"]
+            if proj(p_) and st["rv"]["k"] in ("use", "bin") and _re.match(r"^_1\.\d+$", _rd(c, p_) or ""):
+                stores.append((bi, st.get("ln")))
+        for (sb, ln) in stores:
+            n += 1
+            ok = False
+            for (tb, tl, op) in tests:
+                # the switch on the test result
+                for b2 in c.reach_from(tb):
+                    t2 = c.term(b2)
+                    if t2["k"] == "switch" and t2.get("dty") == "bool" and is_place_local(t2["d"], tl):
+                        want = 1 if op == "Eq" else 0
+                        tgt = [x for v, x in t2["ts"] if v == want] or ([t2["o"]] if all(v != want for v, _ in t2["ts"]) else [])
+                        oth = [x for x in c.succs(b2) if x not in tgt]
+                        if tgt and c.dominates(b2, sb) and sb in c.reach_from(tgt[0], avoid=[b2]) and not any(sb in c.reach_from(o, avoid=[b2]) for o in oth):
+                            ok = True
+            res.inst("counter-store#%d" % n, line=ln, under_matching_mask=ok)
+            res.oblige(ok)
+            if not ok:
+                res.viol("counter-store@%s" % c.norm.split("key_override::")[-1], "%s:%s" % (c.file, ln),
+                         "the longest-match size is raised before / without the modifier-mask test having succeeded: a longer override "
+                         "that does not match shadows a shorter one that does")
+    if n == 0:
+        res.viol("anchors", f.loc, "could not find the longest-match counter update in update_keys' filter closure")
+    return res
+
+
+def is_place_local(o, l):
+    return isinstance(o, dict) and o.get("l") == l and not proj(o)
